@@ -63,6 +63,12 @@ func (P *curvePoint) Valid() bool {
 // Try to generate a point on this curve from a chosen x-coordinate,
 // with a random sign.
 func (P *curvePoint) genPoint(x *big.Int, rand cipher.Stream) bool {
+	// The candidate is drawn from BitLen(P) random bits and may exceed P:
+	// only a reduced x is a coordinate of a curve point.
+	if x.Cmp(P.c.p.P) >= 0 {
+		return false
+	}
+
 	// Compute the corresponding Y coordinate, if any
 	y2 := new(big.Int).Mul(x, x)
 	y2.Mul(y2, x)
